@@ -2,8 +2,11 @@ import os
 
 VERIF = os.path.dirname(os.path.dirname(os.path.dirname(os.path.abspath(__file__))))
 COQ = os.path.join(VERIF, "coq")
-BUILD = os.path.join(VERIF, "build")
-EVIDENCE = os.path.join(VERIF, "evidence")
-REPLAYS = os.path.join(VERIF, "replays")
+# bin/check (the registered command) clears VERIF_OUT / VERIF_REPO: it always reads /repo and writes under /verif.
+# bin/check-at (seed testing only) points them at a scratch checkout and a scratch output directory.
+_OUT = os.environ.get("VERIF_OUT") or VERIF
+BUILD = os.path.join(_OUT, "build")
+EVIDENCE = os.path.join(_OUT, "evidence")
+REPLAYS = os.path.join(_OUT, "replays")
 KNOWN = os.path.join(VERIF, "known_findings.json")
-REPO = os.environ.get("VERIF_REPO", "/repo")
+REPO = os.environ.get("VERIF_REPO") or "/repo"
